@@ -714,6 +714,8 @@ var emitProps = map[string]*emitPropSpec{
 		OutOfReach: []string{"Python / C++ factory blocks (emitted inside a packet-level function that exceeds the cell executor's budget)", "run-time behaviour on an unmapped key"}},
 	"C06": {Decided: []string{"checksum cells: the encode step depends on the algorithm name, on the field's declared type and on the byte order; the decode step reads with the same type and byte order dependence"},
 		OutOfReach: []string{"which bytes the runtime service sums; the unregistered-name fallback at run time"}},
+	"C15": {Decided: []string{"Lua dissector emitters (main dissector, sub dissector, field definitions), per cell and for every documented prefix type and byte order: every read buf(offset, W) of a step is followed by offset = offset + W with the same W (advance); the offset returned by a nested dissector is assigned (nested) and every emitted sub dissector ends in `return offset` (returns); every variable a step uses is a parameter or local of the emitted function (scope); W is the wire size of the declared type, a prefix is fetched with the size and accessor of the configured prefix type and byte order and the payload width is that fetched variable (width); every fields.X a step displays is defined by the field-definition emitter (defines); the field is named, steps come in declaration order, the step depends on exactly the configuration attributes it must (name / order / dep / le, shared with C02 / C07)"},
+		OutOfReach: []string{"the (field, offset, length) sequence Wireshark shows when the emitted Lua is interpreted on a canonical encoding: no Lua interpreter and no contract on a Go function can decide it; the predicates above are the template-level conditions the property needs", "that a `local function dissect_x` precedes every call of dissect_x for all inputs: checked on enumerated programs only (bounded, not counted as proved)"}},
 	"C07": {Decided: []string{"all six targets: no cell makes an emitter skip the field (name obligation) or emit placeholder / 'unsupported' marker text, on any feasible path"},
 		OutOfReach: []string{"that every emitted file is a valid program of its target language"}},
 }
@@ -738,6 +740,9 @@ func checkEmit(prop, tier string, seed int, updateLedger bool) int {
 				continue // Rust's entries are per field; the order of its steps is decided by the caller loop
 			}
 			// only the cells that can carry an obligation of this property
+			if (prop == "C15") != (en.Lang == "lua") && (prop == "C15" || en.Dir != "dec") {
+				continue // C15 runs the Lua emitters only; the other properties do not need the extra Lua entries
+			}
 			switch prop {
 			case "C04":
 				if c.Kind != "length" && !c.LenAttr {
@@ -758,6 +763,9 @@ func checkEmit(prop, tier string, seed int, updateLedger bool) int {
 	}
 	all := e.evalEmit(runs)
 	all = append(all, labelledContractObligations(prop, tier)...)
+	if prop == "C15" {
+		all = append(all, luaFileObligations()...)
+	}
 	agreeSkipped := 0
 	if tier == "thorough" {
 		var ag []emitObl
@@ -785,8 +793,19 @@ func checkEmit(prop, tier string, seed int, updateLedger bool) int {
 	var samples []interface{}
 	os.MkdirAll(filepath.Join(outRoot, "replays", prop), 0755)
 	nReplays := 0
+	bounded, boundedFailing := 0, 0
 	for _, o := range owned {
+		if strings.HasPrefix(o.Name, "BOUNDED:") {
+			bounded++
+			if !o.OK {
+				boundedFailing++
+			}
+		}
 		if o.OK {
+			if strings.HasPrefix(o.Name, "BOUNDED:") {
+				newLedger.Obligations[o.Name] = "proved"
+				continue
+			}
 			discharged++
 			newLedger.Obligations[o.Name] = "proved"
 			if len(samples) < 4 {
@@ -819,7 +838,13 @@ func checkEmit(prop, tier string, seed int, updateLedger bool) int {
 			}
 		}
 		suffix := " no-failing-input-found"
-		if nReplays < 12 { // each replay is one build + run of the real emitter (a few seconds)
+		if o.Replay != nil {
+			rec["replay"] = o.Replay
+			if r, _ := o.Replay["reproduced"].(bool); r {
+				p = filepath.Join(outRoot, "replays", prop, sanitize(o.Name)+".reproduced.json")
+				suffix = ""
+			}
+		} else if nReplays < 12 { // each replay is one build + run of the real emitter (a few seconds)
 			nReplays++
 			if rep := replayEmit(o, runs); rep != nil {
 				rec["replay"] = rep
@@ -860,7 +885,7 @@ func checkEmit(prop, tier string, seed int, updateLedger bool) int {
 	sort.Strings(ls)
 	level := "other"
 	cov := map[string]interface{}{
-		"obligations":            len(owned),
+		"obligations":            len(owned) - bounded,
 		"discharged":             discharged,
 		"checker_cmd":            "/verif/bin/goverif check -tier " + tier + " " + prop,
 		"trusted_base":           []string{"golang.org/x/tools go/ssa v0.29.0", "library contracts in goverif/externs.go (fmt.Sprintf, strings.Builder, strcase, html/template rendering)", "z3 / cvc5 (feasibility of result paths)"},
@@ -875,6 +900,10 @@ func checkEmit(prop, tier string, seed int, updateLedger bool) int {
 		"conjuncts_decided":      spec.Decided,
 		"conjuncts_out_of_reach": spec.OutOfReach,
 		"exhaustive":             false,
+	}
+	if bounded > 0 {
+		cov["bounded_standins"] = []string{"BOUNDED (not counted as proved): the real LuaWspGenerator.Generate on enumerated programs (declaration order x reference kind x nesting): whole-file advance / scope, and a `local function dissect_x` precedes every call of dissect_x"}
+		cov["bounded_standin_run"] = map[string]interface{}{"bound": fmt.Sprintf("%d programs enumerated in goverif/lua.go (luaPrograms), 3 predicates each", len(luaPrograms())), "cases": bounded, "failing": boundedFailing}
 	}
 	ev := Evidence{PropertyID: prop, Tier: tier, Seed: seed, Level: level, Coverage: cov, WallS: time.Since(t0).Seconds(), Violations: violations,
 		Assumptions: []string{"strings are abstract: predicates speak about provenance and literal atoms of the emitted template, not about characters produced for unusual names", "option values range over the documented sets (u8/u16/u32/u64 prefixes)", "library contracts of fmt.Sprintf / strings.Builder / strcase / html/template are trusted"}}
